@@ -70,6 +70,18 @@ class FalsyLen(Exception):
     def __len__(self): return 0
 class FalsyBool(Exception):
     def __bool__(self): return False
+class HttpError(Exception):
+    """pickles (by reference + args) but does not UNpickle: cls(*args) does not fit the signature"""
+    def __init__(self, status, reason):
+        self.status, self.reason = status, reason
+        super().__init__(f"{status} {reason}")
+def _boom(*a): raise RuntimeError("cannot be rebuilt")
+class ReduceLoadsRaises:
+    """dumps fine, the callable named by __reduce__ raises at load time"""
+    def __reduce__(self): return (_boom, (1,))
+class SetstateRaises:
+    def __init__(self): self.x = 1
+    def __setstate__(self, st): raise ValueError("bad state")
 class StrSub(str): pass
 class Color(enum.IntEnum):
     RED = 1
@@ -164,6 +176,10 @@ ARGS = {
     "gen": lambda: (i for i in range(2)), "listlambda": lambda: [1, (lambda: 0)], "module": lambda: json,
     # unpicklable and un-repr-able at once (text form on the pickle path: str(), or the "<Unrepresentable" placeholder)
     "badreprlock": lambda: _with_lock(ZOO.BadRepr()), "onlystrlock": lambda: _with_lock(ZOO.OnlyStr()),
+    # pickle.dumps succeeds, pickle.loads of the result raises: must be replaced by the text form all the same
+    "excbadinit": lambda: ZOO.HttpError(503, "unavailable"), "reduceloadraises": lambda: ZOO.ReduceLoadsRaises(),
+    "setstateraises": lambda: ZOO.SetstateRaises(), "listexcbadinit": lambda: ["ctx", ZOO.HttpError(404, "gone")],
+    "dictsetstate": lambda: {"k": ZOO.SetstateRaises()},
     # lone surrogates (D9): accepted by Python's json, rejected by pydantic's UTF-8 encoder
     "surr": lambda: "\ud800", "surrnest": lambda: ["a", ["\udfff"]], "surrval": lambda: {"k": "a\udc80b"},
     "surrtuple": lambda: ("\ud800",),
@@ -259,8 +275,9 @@ def measure_arg(a):
         else:
             m["enc_" + e], m["eq_" + e], m["loaded_" + e] = False, False, text
     # facts for the direct oracle (its own notion of "representable" / "un-encodable")
-    m["json_encodable"] = tryf(lambda: json.dumps(a))[0]
-    m["pickle_encodable"] = tryf(lambda: pickle.dumps(a))[0]
+    m["json_encodable"] = tryf(lambda: json.dumps(a))[0]        # whatever json.dumps emits, json.loads reads
+    m["pickle_dumps_ok"] = tryf(lambda: pickle.dumps(a))[0]
+    m["pickle_encodable"] = m["rt_pickle"]                        # encodable = can be written AND read back
     m["repr_json"] = bool(m["json_encodable"] and strict_json(a))
     m["repr_pickle"] = m["eq_pickle"]
     m["surrogate"] = has_surrogate(a)
